@@ -84,3 +84,78 @@ fn witness_uci_to_pgn_no_side_effect() {
     }
     assert_eq!(bad, 0, "uci_to_pgn changed the position for {} inputs", bad);
 }
+
+// ---- independent legality reference: play the pseudo-legal move with `make`, read the placement back through the
+// FEN writer and test with a mailbox scan whether the mover's king is attacked (no engine attack code involved) ----
+fn grid(fen: &str) -> [[char; 8]; 8] {
+    let mut g = [['.'; 8]; 8];
+    for (r, row) in fen.split(' ').next().unwrap().split('/').enumerate() {
+        let mut f = 0usize;
+        for ch in row.chars() {
+            if let Some(d) = ch.to_digit(10) { f += d as usize; } else { g[r][f] = ch; f += 1; }
+        }
+    }
+    g
+}
+fn attacked(g: &[[char; 8]; 8], r: i32, f: i32, by_white: bool) -> bool {
+    let at = |rr: i32, ff: i32| -> Option<char> { if (0..8).contains(&rr) && (0..8).contains(&ff) { Some(g[rr as usize][ff as usize]) } else { None } };
+    let mine = |c: char, k: char| -> bool { if by_white { c == k.to_ascii_uppercase() } else { c == k } };
+    for (dr, df) in [(1, 2), (2, 1), (-1, 2), (-2, 1), (1, -2), (2, -1), (-1, -2), (-2, -1)] {
+        if let Some(c) = at(r + dr, f + df) { if mine(c, 'n') { return true; } }
+    }
+    for dr in -1..=1 { for df in -1..=1 { if (dr, df) != (0, 0) { if let Some(c) = at(r + dr, f + df) { if mine(c, 'k') { return true; } } } } }
+    // row index grows downwards (rank 8 is row 0): a white pawn attacks upwards, i.e. sits one row BELOW its target
+    let pr = if by_white { r + 1 } else { r - 1 };
+    for df in [-1, 1] { if let Some(c) = at(pr, f + df) { if mine(c, 'p') { return true; } } }
+    for (dr, df, kinds) in [(1, 0, "rq"), (-1, 0, "rq"), (0, 1, "rq"), (0, -1, "rq"), (1, 1, "bq"), (1, -1, "bq"), (-1, 1, "bq"), (-1, -1, "bq")] {
+        let (mut rr, mut ff) = (r + dr, f + df);
+        while let Some(c) = at(rr, ff) {
+            if c != '.' { if kinds.chars().any(|k| mine(c, k)) { return true; } break; }
+            rr += dr; ff += df;
+        }
+    }
+    false
+}
+fn king_attacked(fen: &str, white_king: bool) -> bool {
+    let g = grid(fen);
+    for r in 0..8 { for f in 0..8 { if g[r][f] == (if white_king { 'K' } else { 'k' }) { return attacked(&g, r as i32, f as i32, !white_king); } } }
+    true
+}
+
+const TRICKY: [&str; 12] = [
+    "8/8/8/KPp4r/8/8/8/4k3 w - c6 0 1",            // en passant removes both pawns from the king's rank
+    "4K3/8/8/8/kpP4R/8/8/8 b - c3 0 1",
+    "7b/8/8/3Pp3/8/8/8/K6k w - e6 0 1",            // the pawn captured en passant is the only blocker on a diagonal
+    "k7/8/8/8/3pP3/8/8/4K2B b - e3 0 1",
+    "7b/8/8/4pP2/8/8/8/K6k w - e6 0 1",
+    "4k3/8/8/3Pp3/8/8/8/4K3 w - e6 0 1",           // legal en passant
+    "4k3/8/8/8/7b/8/5B2/4K3 w - - 0 1",            // pinned bishop may move along the pin only
+    "4k3/4r3/8/8/8/8/4N3/4K3 w - - 0 1",           // pinned knight
+    "r3k2r/8/8/8/8/8/4q3/R3K2R w KQkq - 0 1",      // in check
+    "r3k2r/8/8/8/8/5n2/8/R3K2R w KQkq - 0 1",      // knight check, castling rights present
+    "r3k2r/8/8/8/8/8/6r1/R3K2R w KQkq - 0 1",      // g2 rook guards g1/f... : castling through attacked squares
+    "4k3/8/8/8/1b6/8/3P4/4K3 w - - 0 1",           // pinned pawn: push illegal
+];
+
+#[test]
+fn witness_find_uci_accepts_exactly_the_legal_moves() {
+    let mut bad = 0;
+    for fen in TRICKY {
+        let mut board = Bitboard::from_fen_string_unchecked(fen);
+        let white = fen.split(' ').nth(1) == Some("w");
+        let before = snap(&board);
+        for mv in board.generate_pseudo_legal_moves() {
+            let uci = mv.to_uci_string();
+            board.make(mv);
+            let legal = !king_attacked(&snap(&board), white);
+            board.unmake(mv);
+            let res = board.find_uci(&uci);
+            if res.is_ok() != legal || snap(&board) != before {
+                if bad < 5 { println!("FAILING-INPUT: fen={:?} find_uci({:?}) ok={} but the move is {} (position afterwards {:?})", fen, uci, res.is_ok(), if legal { "legal" } else { "illegal: it leaves the mover's king attacked" }, snap(&board)); }
+                bad += 1;
+                board = Bitboard::from_fen_string_unchecked(fen);
+            }
+        }
+    }
+    assert_eq!(bad, 0);
+}
